@@ -401,6 +401,41 @@ pub fn observe(_ctx: &Ctx, st: &mut Stats, p: &Prog) {
             st.count("svg_exports_equal_native_modulo_unpinned_colours", 1);
         }
     }
+    // call sequences: the entry points are called again on the same thread right after each other with the
+    // same content (matrix export after the SVG export, SVG export with a fresh default option object, the
+    // same SVG export twice): every answer must be the one a single call gives
+    let again = match adapter::guarded(|| wasm::qr(&p.content)) {
+        Ok(v) => v,
+        Err(m) => return fail(st, "trap-qr", format!("second qr() call panicked: {m}")),
+    };
+    let first_qr_len = native.as_ref().map(|q| q.size * q.size).unwrap_or(0);
+    let want_again: Vec<u8> = native.as_ref().map(|q| q.data[..q.size * q.size].iter().map(|m| m.value() as u8).collect()).unwrap_or_default();
+    if again != want_again {
+        return fail(st, "qr-matrix-differs-after-svg-export", format!("qr() called after qr_svg() with the same content returned {} bytes, the native default build has {first_qr_len} modules", again.len()));
+    }
+    let twice = match adapter::guarded(|| wasm::qr_svg(&p.content, opts.clone())) {
+        Ok(s) => s,
+        Err(m) => return fail(st, "trap-qr-svg", format!("second qr_svg() call panicked: {m}")),
+    };
+    if twice != got {
+        return fail(st, "svg-not-repeatable", "qr_svg() called twice with the same content and options returned different documents".into());
+    }
+    let plain = match adapter::guarded(|| wasm::qr_svg(&p.content, wasm::SvgOptions::new())) {
+        Ok(s) => s,
+        Err(m) => return fail(st, "trap-qr-svg", format!("qr_svg() with default options panicked: {m}")),
+    };
+    let want_plain = match &native {
+        Ok(q) => {
+            let mut b = SvgBuilder::default();
+            b.shape(SHAPES[0]);
+            b.to_str(q)
+        }
+        Err(_) => String::new(),
+    };
+    if plain != want_plain {
+        return fail(st, "svg-differs-after-earlier-export", format!("qr_svg() with default options, called after an export of the same content with other options, returned {} bytes; the native default document has {}", plain.len(), want_plain.len()));
+    }
+    st.count("follow_up_calls_equal_single_call", 3);
     st.reach("setter_kinds", p.ops.iter().fold(0u64, |a, o| a | 1 << match o {
         Op::Shape(_) => 0, Op::ModuleColor(_) => 1, Op::Margin(_) => 2, Op::Background(_) => 3, Op::Image(_) => 4, Op::ImageBg(_) => 5,
         Op::ImageBgShape(_) => 6, Op::ImageSize(..) => 7, Op::ImagePos(_) => 8, Op::Ecl(_) => 9, Op::Version(_) => 10 }) & 0x7ff);
